@@ -56,11 +56,12 @@ VARIABLES
   vrep,      \* node -> time at which it was last handed a replication reply from a voter of its configuration
   rlast,     \* <<node, voter>> -> line of the last replication reply from that voter handed to the node
   rtime,     \* <<node, voter>> -> time of the last replication reply from that voter handed to the node
+  inhand,    \* rpc id -> [to, inc, kind] : delivered to a handler that has not returned yet
   pgr,       \* <<node, send time, term>> -> voters whose prevote grants of that round were handed to the node
   bad        \* set of violation records
 
 vars == <<l, meta, dur, pstate, maxterm, votes, applied, cursor, leaders, lfirst, committed, cterm,
-          reqs, hpre, stat, inv, wdone, rdone, retd, dead, mtrack, mwait, finals, healed, s5, hl, fsmc, taken, sopen, isidx, wlab, lastae, s7, vrep, rlast, rtime, pgr, bad>>
+          reqs, hpre, stat, inv, wdone, rdone, retd, dead, mtrack, mwait, finals, healed, s5, hl, fsmc, taken, sopen, isidx, wlab, lastae, s7, vrep, rlast, rtime, inhand, pgr, bad>>
 
 -----------------------------------------------------------------------------
 Ev == Trace[l]
@@ -542,6 +543,10 @@ C14_Abort ==
   \cup (IF Is("log_replay") /\ Has("err") THEN {V("C14", "ReplayFailed", <<Ev.node, Ev.err>>)} ELSE {})
 C18_Panic ==
   (IF Is("panic") THEN {V("C18", "Panic", <<Ev.msg>>)} ELSE {})
+  \* the exported RPC handlers are calls like any other: one that was entered on a node that kept
+  \* running has returned by the end of the fault-free period (dozens of election timeouts later)
+  \cup (IF Is("heal_done") /\ {i \in DOMAIN inhand : <<inhand[i].to, inhand[i].inc>> \notin dead} # {}
+         THEN {V("C18", "HandlerNeverReturned", <<[i \in {j \in DOMAIN inhand : <<inhand[j].to, inhand[j].inc>> \notin dead} |-> inhand[i]]>>)} ELSE {})
   \* a node on which Stop has returned stays stopped until it is started again (4 = Shutdown)
   \cup (IF Is("stopcheck") /\ Ev.state # 4 THEN {V("C18", "StoppedNodeNotShutdown", <<Ev.node, Ev.state>>)} ELSE {})
   \cup (IF Is("abort") THEN {V("C18", "Abort", <<Ev.why>>)} ELSE {})
@@ -849,7 +854,7 @@ Init ==
   /\ dur = <<>> /\ pstate = <<>> /\ maxterm = <<>> /\ votes = {} /\ applied = <<>> /\ cursor = <<>>
   /\ leaders = <<>> /\ lfirst = {} /\ committed = <<>> /\ cterm = <<>> /\ reqs = <<>> /\ hpre = <<>> /\ stat = <<>>
   /\ inv = <<>> /\ wdone = {} /\ rdone = {} /\ retd = {} /\ dead = {} /\ mtrack = <<>> /\ mwait = <<>>
-  /\ finals = <<>> /\ healed = FALSE /\ s5 = FALSE /\ hl = NoHealthy /\ fsmc = <<>> /\ taken = {} /\ sopen = <<>> /\ isidx = <<>> /\ wlab = <<>> /\ lastae = <<>> /\ s7 = {} /\ vrep = <<>> /\ rlast = <<>> /\ rtime = <<>> /\ pgr = <<>> /\ bad = {}
+  /\ finals = <<>> /\ healed = FALSE /\ s5 = FALSE /\ hl = NoHealthy /\ fsmc = <<>> /\ taken = {} /\ sopen = <<>> /\ isidx = <<>> /\ wlab = <<>> /\ lastae = <<>> /\ s7 = {} /\ vrep = <<>> /\ rlast = <<>> /\ rtime = <<>> /\ inhand = <<>> /\ pgr = <<>> /\ bad = {}
 
 Next ==
   /\ l <= Len(Trace)
@@ -889,6 +894,10 @@ Next ==
   /\ rlast' = NextRlast
   /\ rtime' = (IF Is("scenario") THEN <<>> ELSE IF Is("reply") /\ Ev.kind \in {"ae", "is"} THEN Put(rtime, <<Ev.from, Ev.to>>, Ev.t) ELSE rtime)
   /\ pgr' = NextPgr
+  /\ inhand' = (IF Is("scenario") THEN <<>>
+                ELSE IF Is("deliver") THEN Put(inhand, Ev.id, [to |-> Ev.to, inc |-> Ev.inc, kind |-> Ev.kind])
+                ELSE IF (Is("handled") \/ Is("drop")) /\ Ev.id \in DOMAIN inhand THEN Del(inhand, Ev.id)
+                ELSE inhand)
   /\ s5' = (IF Is("scenario") THEN FALSE ELSE s5 \/ KF_S5)
   /\ hl' = NextHl
   /\ fsmc' = NextFsmc
